@@ -220,16 +220,29 @@ class PipeAnalysis:
         if info.qualname == self.leaf_discovery:
             ps_ = [a.arg for a in info.node.args.args]
             t, ex = bound.get(ps_[0]), (bound.get(ps_[1]) if len(ps_) > 1 else None)
-            self.ops.pev("leaf_discovery", node, tensors=sorted(self.ops.atoms_of(t)) or repr(t)[:60], excluded=sorted(self.ops.atoms_of(ex)) if ex is not None else None,
-                         excluded_empty=self._empty(ex), in_loop=bool(self.ops.loop_orders), loop_order=repr(self.ops.current_loop_order(None)))
+            inner0 = (list(t.items) if t.items is not None else [t.elem]) if isinstance(t, ListV) else []
+            nested0 = bool(inner0) and all(isinstance(x, (ListV, SetV)) for x in inner0)
+            t_atoms = sorted({a for x in inner0 for a in self.ops.atoms_of(x)}) if nested0 else sorted(self.ops.atoms_of(t))
+            self.ops.pev("leaf_discovery", node, tensors=t_atoms or repr(t)[:60], excluded=sorted(self.ops.atoms_of(ex)) if ex is not None else None,
+                         excluded_empty=self._empty(ex), in_loop=bool(self.ops.loop_orders) or (nested0 and t.items is None),
+                         loop_order=repr(t.order) if (nested0 and t.items is None) else repr(self.ops.current_loop_order(None)))
             if I.join_depth == 0:
                 c = I.oracle.decide(f"{info.qualname}: grad_fn is None", 2)
                 if c == 1:
                     I.trace.decisions.append("T[some tensor has no grad_fn]")
                     self.ops.pev("raise_site", node, exc="ValueError", what="grad_fn is None", function=info.qualname)
                     raise AbsRaise("ValueError", node, info.loc())
-            at = "leaves(" + "+".join(sorted(self.ops.atoms_of(t))) + (("\\" + "+".join(sorted(self.ops.atoms_of(ex)))) if not self._empty(ex) else "") + ")"
-            return SetV(items=None, elem=key_tv(at), atoms=frozenset([at]))
+            def leaves_of(tt):
+                at = "leaves(" + "+".join(sorted(self.ops.atoms_of(tt))) + (("\\" + "+".join(sorted(self.ops.atoms_of(ex)))) if not self._empty(ex) else "") + ")"
+                return SetV(items=None, elem=key_tv(at), atoms=frozenset([at]))
+
+            inner = (list(t.items) if t.items is not None else [t.elem]) if isinstance(t, ListV) else []
+            if inner and all(isinstance(x, (ListV, SetV)) for x in inner):
+                # discovery per GROUP of tensors (`groups: Iterable[Iterable[Tensor]]`): one set of leaves per group, in the order of the groups
+                if t.items is not None:
+                    return ListV(items=tuple(leaves_of(x) for x in t.items), kind="list")
+                return ListV(items=None, elem=leaves_of(t.elem), kind="list", order=t.order, over=t.over)
+            return leaves_of(t)
         if info.qualname in self.validators:
             params = [a.arg for a in info.node.args.args if a.arg not in ("self", "cls")]
             t = bound.get(params[0]) if params else None
